@@ -43,6 +43,12 @@ def main():
             def run_demo():
                 return sh(demo_cmd, cwd=wt, timeout=900)
             meta['demo_cmd'] = f'sh {pattern}   (worktree path substituted; passes iff exit 0)'
+        elif target == 'shbin':
+            # a shell demo that takes the CLI binary as its argument
+            demo_cmd = f'go build -o {wt}/.seedcli . && sh {os.path.join(seeddir, pattern)} {wt}/.seedcli'
+            def run_demo():
+                return sh(demo_cmd, cwd=wt, timeout=900)
+            meta['demo_cmd'] = f'go build -o cli . && sh {pattern} cli   (passes iff exit 0)'
         elif target == 'php':
             script, expect = pattern.split('::', 1)
             demo_cmd = f'go build -o {wt}/.seedcli . && {wt}/.seedcli {os.path.join(seeddir, script)}'
@@ -74,7 +80,7 @@ def main():
             rc, out = 1, 'demo timed out (hang)'
         meta['demo_with_change'] = 'fail' if rc != 0 else 'PASS'
         print('demo with change:', meta['demo_with_change'])
-        if target not in ('php', 'sh'):
+        if target not in ('php', 'sh', 'shbin'):
             for f in tests:
                 os.remove(os.path.join(wt, target, os.path.basename(f)))
         if os.path.exists(f'{wt}/.seed-demo.sh'):
